@@ -36,6 +36,9 @@ Definition scopy (off n : nat) : spec := fun l => VX (sub l off n).
 Definition sconst (x : value) : spec := fun _ => x.
 (* methods whose result is not a field (String): only "returns" *)
 Definition sreturns : spec := fun _ => VU.
+(* table entries *)
+Definition sp (name : string) (s : spec) : string * option spec := (name, Some s).
+Definition nospec (name : string) : string * option spec := (name, None).
 
 (* ================================================================= *)
 (* IPv4, RFC 791 section 3.1 *)
@@ -46,53 +49,53 @@ Definition ip4_totallen (l : bytes) : N := bits l 16 16.
 Definition ip4_header_checksum (l : bytes) : N :=
   swap16 (rfc1071 (sub l 0 10 ++ [0; 0] ++ sub l 12 8)).
 Definition IP4_specs : stable :=
-  [("CalculateChecksum", fun l => VN (ip4_header_checksum l));
-   ("Checksum", sfield 80 16);
-   ("Dst", scopy 16 4);
-   ("FlagDontFragment", sflag 49);
-   ("FlagMoreFragments", sflag 50);
+  [sp "CalculateChecksum" (fun l => VN (ip4_header_checksum l));
+   sp "Checksum" (sfield 80 16);
+   sp "Dst" (scopy 16 4);
+   sp "FlagDontFragment" (sflag 49);
+   sp "FlagMoreFragments" (sflag 50);
    (* the three flag bits, kept at their position in octet 6 (the library's documented convention) *)
-   ("Flags", fun l => VN (32 * bits l 48 3));
-   ("Fragment", sfield 51 13);
-   ("ID", sfield 32 16);
-   ("IHL", fun l => VN (ip4_ihl l));
+   sp "Flags" (fun l => VN (32 * bits l 48 3));
+   sp "Fragment" (sfield 51 13);
+   sp "ID" (sfield 32 16);
+   sp "IHL" (fun l => VN (ip4_ihl l));
    (* the payload spans IHL .. TotalLen *)
-   ("Payload", fun l => VR (N.to_nat (ip4_ihl l)) (N.to_nat (ip4_totallen l) - N.to_nat (ip4_ihl l)));
-   ("Protocol", sfield 72 8);
-   ("Src", scopy 12 4);
-   ("String", sreturns);
-   ("TOS", sfield 8 8);
-   ("TTL", sfield 64 8);
-   ("TotalLen", fun l => VN (ip4_totallen l));
-   ("Version", sfield 0 4)].
+   sp "Payload" (fun l => VR (N.to_nat (ip4_ihl l)) (N.to_nat (ip4_totallen l) - N.to_nat (ip4_ihl l)));
+   sp "Protocol" (sfield 72 8);
+   sp "Src" (scopy 12 4);
+   sp "String" (sreturns);
+   sp "TOS" (sfield 8 8);
+   sp "TTL" (sfield 64 8);
+   sp "TotalLen" (fun l => VN (ip4_totallen l));
+   sp "Version" (sfield 0 4)].
 
 (* ================================================================= *)
 (* UDP, RFC 768.  Payload: the library's zero-copy convention (the view runs to the end of the
    captured datagram), DESIGN C02 reading (i). *)
 Definition UDP_specs : stable :=
-  [("Checksum", sfield 48 16); ("DstPort", sfield 16 16); ("HeaderLen", sconst (VN 8));
-   ("Len", sfield 32 16); ("Payload", srest 8); ("SrcPort", sfield 0 16); ("String", sreturns)].
+  [sp "Checksum" (sfield 48 16); sp "DstPort" (sfield 16 16); sp "HeaderLen" (sconst (VN 8));
+   sp "Len" (sfield 32 16); sp "Payload" (srest 8); sp "SrcPort" (sfield 0 16); sp "String" (sreturns)].
 
 (* ================================================================= *)
 (* TCP, RFC 793 section 3.1 (NS: RFC 3540) *)
 Definition tcp_hlen (l : bytes) : N := 4 * bits l 96 4.
 Definition TCP_specs : stable :=
-  [("ACK", sflag 107); ("Ack", sfield 64 32); ("CWR", sflag 104); ("Checksum", sfield 128 16);
-   ("DstPort", sfield 16 16); ("ECE", sflag 105); ("FIN", sflag 111);
+  [sp "ACK" (sflag 107); sp "Ack" (sfield 64 32); sp "CWR" (sflag 104); sp "Checksum" (sfield 128 16);
+   sp "DstPort" (sfield 16 16); sp "ECE" (sflag 105); sp "FIN" (sflag 111);
    (* header length in bytes = 4 x data offset *)
-   ("HeaderLen", fun l => VN (tcp_hlen l));
-   ("NS", sflag 103); ("PSH", sflag 108);
+   sp "HeaderLen" (fun l => VN (tcp_hlen l));
+   sp "NS" (sflag 103); sp "PSH" (sflag 108);
    (* the payload starts at 4 x data offset *)
-   ("Payload", fun l => VR (N.to_nat (tcp_hlen l)) (blen l - N.to_nat (tcp_hlen l)));
-   ("RST", sflag 109); ("SYN", sflag 110); ("Seq", sfield 32 32); ("SrcPort", sfield 0 16);
-   ("URG", sflag 106); ("Urgent", sfield 144 16); ("Window", sfield 112 16)].
+   sp "Payload" (fun l => VR (N.to_nat (tcp_hlen l)) (blen l - N.to_nat (tcp_hlen l)));
+   sp "RST" (sflag 109); sp "SYN" (sflag 110); sp "Seq" (sfield 32 32); sp "SrcPort" (sfield 0 16);
+   sp "URG" (sflag 106); sp "Urgent" (sfield 144 16); sp "Window" (sfield 112 16)].
 
 (* ================================================================= *)
 (* ARP over Ethernet/IPv4, RFC 826 *)
 Definition ARP_specs : stable :=
-  [("DstIP", scopy 24 4); ("DstMAC", srange 18 6); ("HLen", sfield 32 8); ("HType", sfield 0 16);
-   ("Operation", sfield 48 16); ("PLen", sfield 40 8); ("Proto", sfield 16 16); ("SrcIP", scopy 14 4);
-   ("SrcMAC", srange 8 6); ("String", sreturns)].
+  [sp "DstIP" (scopy 24 4); sp "DstMAC" (srange 18 6); sp "HLen" (sfield 32 8); sp "HType" (sfield 0 16);
+   sp "Operation" (sfield 48 16); sp "PLen" (sfield 40 8); sp "Proto" (sfield 16 16); sp "SrcIP" (scopy 14 4);
+   sp "SrcMAC" (srange 8 6); sp "String" (sreturns)].
 
 (* ================================================================= *)
 (* Ethernet II, RFC 894; 802.1Q tag (TPID 0x8100) adds 4 bytes, 802.1ad (0x88a8) adds 8 *)
@@ -105,8 +108,8 @@ Definition ether_ip (off4 off6 : nat) : spec := fun l =>
   else if ether_type l =? 34525 then VX (sub l (14 + off6) 16)
   else VX [].
 Definition Ether_specs : stable :=
-  [("Dst", srange 0 6); ("DstIP", ether_ip 16 24); ("EtherType", fun l => VN (ether_type l));
-   ("HeaderLen", fun l => VN (N.of_nat (ether_hlen l)));
+  [sp "Dst" (srange 0 6); sp "DstIP" (ether_ip 16 24); sp "EtherType" (fun l => VN (ether_type l));
+   sp "HeaderLen" (fun l => VN (N.of_nat (ether_hlen l)));
    (* everything after the header; nothing when the frame is shorter than its header *)
-   ("Payload", fun l => if Nat.ltb (blen l) (ether_hlen l) then VNil else VR (ether_hlen l) (blen l - ether_hlen l));
-   ("Src", srange 6 6); ("SrcIP", ether_ip 12 8); ("String", sreturns)].
+   sp "Payload" (fun l => if Nat.ltb (blen l) (ether_hlen l) then VNil else VR (ether_hlen l) (blen l - ether_hlen l));
+   sp "Src" (srange 6 6); sp "SrcIP" (ether_ip 12 8); sp "String" (sreturns)].
